@@ -11,6 +11,10 @@ import (
 
 	"github.com/omec-project/upf-epc/pfcpiface"
 
+	"github.com/wmnsk/go-pfcp/ie"
+	"github.com/wmnsk/go-pfcp/message"
+
+	"verif/harness/model"
 	"verif/harness/rig"
 	"verif/harness/sim"
 )
@@ -23,6 +27,7 @@ type Rig struct {
 	Notify *rig.UnixL
 	EndM   *rig.UnixL
 	Conf   pfcpiface.Conf
+	Base   map[string]int // pool occupancy right after start-up (hook)
 }
 
 var (
@@ -121,6 +126,11 @@ func newRig(o RigOpts) (*Rig, error) {
 		if !r.P4.WaitReady(10 * time.Second) {
 			return nil, fmt.Errorf("agent never initialised the P4Runtime server")
 		}
+		// the plug-in flags itself connected a moment after the interfaces entries are written:
+		// associate from a throw-away peer until it is accepted, then release that association
+		if err := warmUp(r); err != nil {
+			return nil, err
+		}
 	}
 	return r, nil
 }
@@ -198,4 +208,35 @@ func cmdDiag(r *Rig) string {
 		out += fmt.Sprintf("\n  #%d %s %s key=%s err=%q", c.Seq, c.Module, c.Cmd, c.Key, c.Err)
 	}
 	return out
+}
+
+func warmUp(r *Rig) error {
+	p, err := rig.NewPeer("127.0.251.2:0", r.A.PFCPAddr())
+	if err != nil {
+		return err
+	}
+	defer p.Close()
+	deadline := time.Now().Add(10 * time.Second)
+	seq := uint32(1)
+	for time.Now().Before(deadline) {
+		seq++
+		_ = p.Send(model.AssocSetup(seq, "172.31.250.1"))
+		d, err := p.Recv(time.Second)
+		raw := d.B
+		if err == nil && len(raw) > 0 {
+			if m, perr := message.Parse(raw); perr == nil {
+				if ar, ok := m.(*message.AssociationSetupResponse); ok && ar.Cause != nil {
+					if c, _ := ar.Cause.Cause(); c == ie.CauseRequestAccepted {
+						// no probe afterwards: a heartbeat would leave a connection object behind
+						_ = p.Send(model.AssocRelease(seq+1, "172.31.250.1"))
+						_, _ = p.Recv(time.Second)
+						time.Sleep(5 * time.Millisecond)
+						return nil
+					}
+				}
+			}
+		}
+		time.Sleep(5 * time.Millisecond)
+	}
+	return fmt.Errorf("UP4 agent never accepted an association (datapath not connected)")
 }
